@@ -210,8 +210,9 @@ type closureInfo struct {
 type mapIter struct {
 	m     Val
 	mt    *types.Map
-	seen  string // heap var name of the seen-set (ghost, per iterator)
-	isStr bool
+	seen    string // heap var name of the seen-set (ghost, per iterator)
+	isStr   bool
+	lastKey Val
 }
 
 type nameDef struct {
